@@ -440,8 +440,13 @@ def transport_classes():
 
         # sink interface for the incoming link
         async def feed_message(self, msg):
-            async for frame in self._frame_parser.receive_data(msg, 0):
-                self._incoming_frame_queue.put_nowait(frame)
+            try:
+                async for frame in self._frame_parser.receive_data(msg, 0):
+                    self._incoming_frame_queue.put_nowait(frame)
+            except Exception as e:
+                # what the aiohttp client transport does when its message loop fails
+                self.world.ev(self.side, 'transport_parse_failure', exc=repr(e))
+                self._incoming_frame_queue.put_nowait(RSocketTransportError())
 
         def feed_eof(self):
             self.feed_error()
